@@ -36,6 +36,12 @@ CLAIMED = {
  "C20": ("dominating-guard extraction with operand provenance on go/cfg",
          "in fenceMatchNearbys a candidate is appended only under distance(moved object, candidate) <= roam.meters and an id filter that is glob.Match under roam.pattern and equality otherwise; the reported meters is the distance between those two objects; faraway distances are recomputed against the new position; no self-operand distance",
          "the nearby/faraway set algebra with NODWELL and the distance values themselves"),
+ "C11": ("normal-form extraction of the cursor iterators on go/cfg and pairwise/sibling comparison; who-may-write on the cursor counters",
+         "the cursor protocol: every Collection iterator with a Cursor pre-steps the offset once under cursor != nil, and its per-item callback counts, skips while count <= offset without calling the user iterator, steps, then calls the user iterator; scanWriter sets hitLimit only at numberItems == limit and stops there, reports numberIters iff hitLimit, and the counters have single writers",
+         "that concatenated pages equal the unlimited reply (behaviour over datasets and filters)"),
+ "C14": ("reviewed provenance table over resolved object.New call sites; structural checks of comparator, scan direction and sweeper callbacks on go/cfg; bookkeeping symmetry of the expiry index",
+         "expiry as a logged delete (the sweepers pass writeAOF under the exclusive lock), symmetric maintenance of the expiry index with the same guard on insert and delete, the deadline each handler stores (SET/EXPIRE new, FSET inherited, PERSIST/JSET/JDEL none), the expiry index ordered by deadline first and scanned ascending with the sweepers stopping at the first future deadline",
+         "timing (never early / bounded delay against the wall clock) and TTL arithmetic"),
 }
 
 NOT_APPLICABLE = {
